@@ -309,7 +309,7 @@ def run_config_symbolic(pid, cfg, tier, seed):
             swept = {}
             groups = {}
             for o in sw:
-                groups.setdefault(tuple(L(a).id for a in o.assume), []).append(o)
+                groups.setdefault((o.method == 'split',) + tuple(L(a).id for a in o.assume), []).append(o)
             for key, obs_g in groups.items():
                 goals = [o.goal() for o in obs_g]
                 hints = [L(h) for o in obs_g for h in o.hints]
@@ -406,6 +406,8 @@ def discharge(mod, pid, cfg, o, A, B, timeout_ms, seed, path, swept_goal=None):
             pass
         elif o.method == 'split':
             g3, A3 = swept_goal if swept_goal is not None else (goal, AA)
+            if A3 is None:
+                A3 = AA
             st = {'leaves': 0, 'pruned': 0, 'unknown_leaves': 0}
             res = prove.split_prove(g3, A3, to, expand=o.meta.get('expand_minmax', True),
                                     deadline=time.time() + o.meta.get('split_budget_s', 120), stats=st)
